@@ -61,6 +61,7 @@ class Path:
         self.pc = []  # z3 bools: branch conditions taken
         self.assumes = []  # z3 bools: contracts of stubs (sqrt, mod, ...)
         self.domain = []  # z3 bools: domain conditions (divisor != 0, sqrt arg >= 0)
+        self.domain_at = []  # (len(pc), len(assumes)) when each domain condition was recorded
         self.pending = []  # alternative prefixes discovered on this path
         self.trig = {}  # z3 term id -> (cos, sin)
         self.fresh = 0
@@ -86,6 +87,18 @@ class Path:
 
     def assume(self, c):
         self.assumes.append(_z(c))
+
+    def add_domain(self, c):
+        self.domain.append(c)
+        self.domain_at.append((len(self.pc), len(self.assumes)))
+
+    def domain_obligations(self):
+        """(condition, hypotheses) pairs: each domain condition must follow from what was known when it arose."""
+        out = []
+        for k, c in enumerate(self.domain):
+            npc, nas = self.domain_at[k]
+            out.append((c, self.pc[:npc] + self.assumes[:nas] + self.domain[:k]))
+        return out
 
     def constraints(self):
         return self.pc + self.assumes + self.domain
@@ -468,7 +481,7 @@ class SReal:
                 raise ZeroDivisionError("symbolic division by literal zero")
             return a / b_s
         p = cur()
-        p.domain.append(b != 0)
+        p.add_domain(b != 0)
         if p.recip:
             # polynomial mode: a/b := a * ib with the contract ib * b = 1 (one reciprocal variable per divisor term)
             key = ("recip", b_s.get_id())
@@ -544,7 +557,7 @@ class SReal:
         if key in p.trig:
             return SReal(p.trig[key][0])
         r = p.new("sqrt")
-        p.domain.append(self.t >= 0)
+        p.add_domain(self.t >= 0)
         p.assume(z3.And(r >= 0, r * r == self.t))
         p.trig[key] = (r, s)
         p.apps.setdefault("sqrt", []).append((r, self.t))
@@ -667,7 +680,7 @@ class SReal:
         p = cur()
         a = p.new("acos")
         u = self.t
-        p.domain.append(z3.And(u >= -1, u <= 1))
+        p.add_domain(z3.And(u >= -1, u <= 1))
         s = (1 - self * self).sqrt()
         p.assume(z3.And(a >= 0, a <= rv(PI_F)))
         # the end points are pinned so that range reasoning is exact there
@@ -689,7 +702,7 @@ class SReal:
         p = cur()
         a = p.new("asin")
         u = self.t
-        p.domain.append(z3.And(u >= -1, u <= 1))
+        p.add_domain(z3.And(u >= -1, u <= 1))
         c = (1 - self * self).sqrt()
         h = rv(PI_F / 2)
         p.assume(z3.And(a >= -h, a <= h))
@@ -984,7 +997,7 @@ class SInt:
         ts = z3.simplify(t)
         if z3.is_int_value(ts) and ts.as_long() > 0:
             return SInt(self.t / ts)  # z3 int division is floor for positive divisor
-        cur().domain.append(t != 0)
+        cur().add_domain(t != 0)
         q = self.t / t
         adj = z3.If(z3.And(t < 0, self.t % t != 0), q - 1, q)  # Euclidean -> floor
         return SInt(adj)
@@ -996,7 +1009,7 @@ class SInt:
         ts = z3.simplify(t)
         if z3.is_int_value(ts) and ts.as_long() > 0:
             return SInt(self.t % ts)
-        cur().domain.append(t != 0)
+        cur().add_domain(t != 0)
         r = self.t % t
         return SInt(z3.If(z3.And(t < 0, r != 0), r + t, r))
 
